@@ -1449,4 +1449,4 @@ MANIFEST = {
             "the quantifier and only counted.",
 }
 
-MANIFEST_ADDENDUM = "Generator additions: operands and out= targets that are tensor views reached through a layout-dependent reshape of a Fortran-ordered base; dtype= together with where= and/or out=; tensor-valued where masks; exponents of one element in 0..3 dimensions; Tensor.__pow__'s value-dependent routing is attributed by intervention (the failure vanishes through mg.power)."
+MANIFEST_ADDENDUM = "Generator additions: operands and out= targets that are tensor views reached through a layout-dependent reshape of a Fortran-ordered base; dtype= together with where= and/or out=; tensor-valued where masks; exponents of one element in 0..3 dimensions; Tensor.__pow__'s value-dependent routing is attributed by intervention (the failure vanishes through mg.power). Round 5: methods (outer/reduce/accumulate) of the ufuncs that act on the tensors' arrays; 0-d operands reduced over an explicit integer axis; linalg.norm over integer/boolean operands and ord=-inf."
